@@ -64,7 +64,7 @@ def from_alphabet(td):
 
 class Bounds:
     def __init__(self, int_abs=1 << 40, n_len=2, depth=3, str_len=2, oid_arcs=3, arc_max=1 << 20,
-                 real='special', free=False, margin=1 << 17, free_len_cap=5):
+                 real='special', free=False, margin=1 << 17, free_len_cap=5, complete_additions=False):
         self.int_abs = int_abs
         self.n_len = n_len
         self.depth = depth
@@ -77,6 +77,10 @@ class Bounds:
         self.free = free
         self.margin = margin
         self.free_len_cap = free_len_cap
+        # complete_additions: mandatory extension additions (and groups with a mandatory member)
+        # are always present, i.e. only values of the *current* version of the type (text codecs
+        # refuse values of earlier versions with an EncodeError)
+        self.complete_additions = complete_additions
 
     def as_dict(self):
         return dict(vars(self))
@@ -343,7 +347,7 @@ class Gen:
                     break
                 if isinstance(a, list):
                     mandatory = [m for m in a if not (m.get('optional') or 'default' in m)]
-                    present = ctx.flag('%s.[[%s]]?' % (path, a[0]['name']))
+                    present = (b.complete_additions and bool(mandatory)) or ctx.flag('%s.[[%s]]?' % (path, a[0]['name']))
                     if present:
                         for m in a:
                             member(m)
@@ -351,7 +355,9 @@ class Gen:
                         cut = True
                 else:
                     mand = not (a.get('optional') or 'default' in a)
-                    if mand:
+                    if mand and b.complete_additions:
+                        out[a['name']] = self.value(ctx, a, rmod, '%s.%s' % (path, a['name']), depth + 1)
+                    elif mand:
                         if self.tie is not None and self.tie.match(a['name']):
                             if tied is None:
                                 tied = ctx.flag('%s.<tied>?' % path)
